@@ -5,6 +5,7 @@ package stream
 import (
 	"errors"
 	"fmt"
+	"time"
 
 	"github.com/Trendyol/go-dcp/models"
 	"github.com/couchbase/gocbcore/v10"
@@ -89,8 +90,17 @@ func H_C12_ends() {
 		obs, ok := fx.s.observers.Load(uint16(vb))
 		assert(ok, "observer present")
 		obs.End(models.DcpStreamEnd{VbID: uint16(vb)}, cause)
-		quiesce()
 		recovers := transient && !closeWithCancel
+		{
+			// the count is right at every instant, also while a re-open is still in flight
+			liveNow := live
+			if !recovers {
+				liveNow--
+			}
+			_, nNow := fx.s.GetMetric()
+			assert(int(nNow) == liveNow, "active-stream count is exact immediately after the end event")
+		}
+		quiesce()
 		if recovers {
 			cover("transient-reopened")
 			opens[vb]++
@@ -111,4 +121,40 @@ func H_C12_ends() {
 	if live == 0 {
 		cover("all-ended")
 	}
+}
+
+// H_C12_overlap: a transient end on vBucket 0 whose re-open is slow, and the
+// final end of vBucket 1 arriving while that re-open is still in flight.
+func H_C12_overlap() {
+	setPreempt(1)
+	fx := vNewFixture(func() []uint16 { return []uint16{0, 1} })
+	fx.cl.high = [vTotalVB]uint64{^uint64(0), ^uint64(0), 0, 0}
+	fx.s.Open()
+	slow := true
+	fx.cl.openErr = func(vbID uint16, nth int) error {
+		if nth > 0 && slow {
+			time.Sleep(2 * time.Second) // the re-open takes a while
+		}
+		return nil
+	}
+	cause, _ := vEndCause(1 + choose("cause", 2)) // socket closed / wrapped too-slow
+	o0, _ := fx.s.observers.Load(0)
+	o1, _ := fx.s.observers.Load(1)
+	o0.End(models.DcpStreamEnd{VbID: 0}, cause)
+	// re-open of vBucket 0 is in flight (its goroutine sleeps); vBucket 1 ends for good now
+	final, _ := vEndCause([]int{0, 3, 4}[choose("final", 3)])
+	o1.End(models.DcpStreamEnd{VbID: 1}, final)
+	_, n := fx.s.GetMetric()
+	assert(n == 1, "one vBucket (the one being re-opened) is still counted")
+	assert(!vStopClosed(fx.stop), "the client keeps running while a transiently ended vBucket is being re-opened")
+	quiesce()
+	assert(len(fx.openCallsFor(0)) == 2, "vBucket 0 was re-requested")
+	_, n = fx.s.GetMetric()
+	assert(n == 1 && !vStopClosed(fx.stop), "still streaming vBucket 0 after the re-open")
+	cover("overlap")
+	// now vBucket 0 ends for good too
+	o0.End(models.DcpStreamEnd{VbID: 0}, final)
+	quiesce()
+	_, n = fx.s.GetMetric()
+	assert(n == 0 && vStopClosed(fx.stop), "the client stops once every vBucket has ended for good")
 }
